@@ -305,8 +305,9 @@ namespace GeographicLib {
 
   Math::real Geoid::height(real lat, real lon) const {
     using std::isnan;           // Needed for Centos 7, ubuntu 14
+    using std::isfinite;
     lat = Math::LatFix(lat);
-    if (isnan(lat) || isnan(lon)) {
+    if (isnan(lat) || !isfinite(lon)) { // AngNormalize(+/-inf) is a NaN
       return Math::NaN();
     }
     lon = Math::AngNormalize(lon);
